@@ -1424,9 +1424,15 @@ func (h *hist) step(s Step) string {
 			existing = append(existing, t)
 		}
 	}
+	// many-to-many links are (owner, target) pairs = join rows and has-one/has-many links are target rows:
+	// Count and Find report every one of them. Only for belongs-to is a record shared by two owners of the
+	// slice read either way (two links, one associated record) - and Count and Find must agree in any case.
 	okCounts := map[int]bool{len(existing): true}
-	if h.su.Slice { // a target shared inside the slice: links or records, both readings accepted
+	if h.su.Slice && r.Kind == belongsTo {
 		okCounts[len(distinct(existing))] = true
+	}
+	if h.su.Slice && r.Kind == m2m && len(existing) != len(distinct(existing)) {
+		evid.Class("count/find:slice-many-to-many-target-shared-by-two-owners")
 	}
 	a2 := h.d.Model(h.modelArg()).Association(s.Rel)
 	if s.Unscoped {
@@ -1466,6 +1472,9 @@ func (h *hist) step(s Step) string {
 	if !okCounts[len(found)] || fmt.Sprint(distinct(found)) != fmt.Sprint(distinct(existing)) {
 		return fail("Find() returned keys %v, the model links %v", found, existing)
 	}
+	if int(cnt) != len(found) {
+		return fail("Count() = %d but Find() returned %d records %v (model links %v)", cnt, len(found), found, existing)
+	}
 	// Find/Count with conditions (documented: db.Model(&o).Where(..).Association(..).Find / Find(&out, conds)):
 	// the linked targets whose name is in a given set
 	if h.stepNo%2 == 0 && len(existing) > 0 {
@@ -1484,7 +1493,7 @@ func (h *hist) step(s Step) string {
 			}
 		}
 		okN := map[int]bool{len(want): true}
-		if h.su.Slice {
+		if h.su.Slice && r.Kind == belongsTo {
 			okN[len(distinct(want))] = true
 		}
 		a4 := h.d.Where("name IN ?", names).Model(h.modelArg()).Association(s.Rel)
@@ -1959,7 +1968,7 @@ const ruleText = "C12: one history = saved owners 1..3 of one owner type carryin
 
 func TestC12(t *testing.T) {
 	evid.Rule(ruleText)
-	evid.Assume("many-to-many Unscoped removes join rows only (documented: Unscoped 'has nothing to do with ManyToMany'); in slice mode Count/len(Find) may count a shared target per link or once")
+	evid.Assume("many-to-many Unscoped removes join rows only (documented: Unscoped 'has nothing to do with ManyToMany'); for belongs-to on a slice of owners Count/len(Find) may count a record shared by two owners per link or once (they must agree); many-to-many links are join rows and are all counted")
 	rapid.Check(t, func(rt *rapid.T) {
 		su := genSetup(rt)
 		allowUnscoped := rapid.Bool().Draw(rt, "allowUnscoped")
